@@ -1,4 +1,5 @@
 import Zrnt.Beacon.Block
+import Zrnt.Util.Merkle
 import Zrnt.Beacon.Spec.Transition
 /-!
 # Specification layer `S`: block processing — helpers and the operations (phase0 … deneb)
@@ -84,14 +85,19 @@ def is_valid_indexed_attestation (s : State) (indices : List Nat) (sig_ok : Bool
   -- Verify aggregate signature
   pure sig_ok
 
-/-- `is_valid_merkle_branch` -/
+/-- `is_valid_merkle_branch`:
+```python
+    value = leaf
+    for i in range(depth):
+        if index // (2**i) % 2: value = hash(branch[i] + value)
+        else:                   value = hash(value + branch[i])
+    return value == root
+```
+The loop is `Zrnt.Util.Merkle.specRoot` (the specification C19 proves `VerifyMerkleBranch` against) over the
+first `depth` siblings; a branch shorter than `depth` is the pyspec's `IndexError`. -/
 def is_valid_merkle_branch (leaf : Bytes) (branch : List Bytes) (depth index : Nat) (root : Bytes) : SM Bool := do
-  let mut value := leaf
-  for i in [0:depth] do
-    let b ← idx branch i "merkle branch"
-    if index / (2 ^ i) % 2 = 1 then value := hash (b ++ value)
-    else value := hash (value ++ b)
-  pure (value = root)
+  if branch.length < depth then invalid "merkle branch"
+  pure (decide (Zrnt.Util.Merkle.specRoot (fun a b => hash (a ++ b)) leaf index (branch.take depth) = root))
 
 /-! ## Registry mutators -/
 
